@@ -7,11 +7,19 @@ FnRefColumns     load_sample_block, the statement that decides the gc / rmask co
                  `ref_columns["gc"]` / `ref_columns["rmask"]` are optional numbers (None: the dict has no such key, init),
                  the two results of get_fasta_stats (unpacked as e[0], e[1]) and the stored gc are the bin's values
                                                                               (C05_source_ref_columns)
+FnRefFlatRow     do_reference_flat's column code per row: log2 = the flat level, depth = np.exp2(log2), the FASTA columns
+                                                                  (C05_source_flat_row, C05_source_flat_row_fasta)
+FnRefBedRow      bed2probes' column code per row: gene (the file's or "-"), log2 = 0.0, spread = 0.0
+                                                                  (C05_source_bed_row_spread, C05_source_bed_row_gene)
 
 Mutations tried on a scratch copy (tools/mut_fn.sh; KILLED = the named Proofs file no longer compiles, REFUSED = the
 translator refuses the module, which the check reports as a broken tie):
   FnRefColumns    `(fix_rmask or fix_gc)` -> `and` KILLED ; `elif "gc" in cnarr1 and fix_gc` -> `elif "gc" in cnarr1` KILLED ;
                   `ref_columns["rmask"] = rmask` -> `= gc` KILLED ; `if fix_rmask:` -> `if fix_gc:` KILLED
+  FnRefFlatRow    `np.exp2(ref_probes["log2"])` -> `np.exp2(-ref_probes["log2"])` KILLED ; `ref_probes["rmask"] = rmask` -> `= gc`
+                  KILLED ; `if fa_fname:` -> `if not fa_fname:` KILLED
+  FnRefBedRow     `table["spread"] = 0.0` -> `1.0` KILLED ; `"gene" in regions.data` -> `not in` REFUSED (the keyed input is
+                  gone) ; `table["log2"] = 0.0` -> `-1.0` KILLED
 """
 
 _LSB = ['filenames', 'fa_fname', 'is_haploid_x', 'diploid_parx_genome', 'sexes', 'skip_low', 'fix_gc', 'fix_edge', 'fix_rmask']
@@ -27,5 +35,26 @@ MODULES = {
                      ('get_fasta_stats(cnarr1, fa_fname)[1]', 'Q', 'fasta_rmask'),
                      ("'gc' in cnarr1", 'B', 'has_gc'), ("cnarr1['gc']", 'Q', 'stored_gc')],
              returns=["ref_columns['gc']", "ref_columns['rmask']"], ret=['OQ', 'OQ']),
+    ]),
+    # do_reference_flat, the column code per row: log2 = the flat level (expect_flat_log2, an input: FnCnaryFlat / C05_source
+    # tie it), depth = np.exp2(log2) (oracle), gc / rmask from the FASTA statistics when a FASTA is given (else no column)
+    'FnRefFlatRow': ('cnvlib/reference.py', [
+        dict(name='do_reference_flat', coq='fn_flat_row',
+             py_params=['targets', 'antitargets', 'fa_fname', 'is_haploid_x_reference', 'diploid_parx_genome'],
+             fragment=dict(first="ref_probes['log2'] = ", last='if '),
+             init=[("ref_probes['gc']", 'OQ', 'None'), ("ref_probes['rmask']", 'OQ', 'None'),
+                   ('gc', 'Q', '(inject_Z 0)'), ('rmask', 'Q', '(inject_Z 0)')],
+             params=[('ref_probes.expect_flat_log2(is_haploid_x_reference, diploid_parx_genome)', 'Q', 'flat_level'),
+                     ('fa_fname', 'S'), ('get_fasta_stats(ref_probes, fa_fname)[0]', 'Q', 'fasta_gc'),
+                     ('get_fasta_stats(ref_probes, fa_fname)[1]', 'Q', 'fasta_rmask')],
+             returns=["ref_probes['log2']", "ref_probes['depth']", "ref_probes['gc']", "ref_probes['rmask']"],
+             ret=['Q', 'Q', 'OQ', 'OQ']),
+    ]),
+    # bed2probes, the column code per row: the gene name (the file's, or "-"), log2 = 0.0, spread = 0.0
+    'FnRefBedRow': ('cnvlib/reference.py', [
+        dict(name='bed2probes', coq='fn_bed_row', py_params=['bed_fname'],
+             fragment=dict(first="table['gene'] = ", last="table['spread'] = "),
+             params=[("regions.data['gene']", 'S', 'gene_col'), ("'gene' in regions.data", 'B', 'has_gene')],
+             returns=["table['gene']", "table['log2']", "table['spread']"], ret=['S', 'Q', 'Q']),
     ]),
 }
